@@ -15,7 +15,7 @@ Import ListNotations.
 From Onet Require Export Base.Corr Net.C09Router.
 
 (* the variant of context.go the correspondence compares with; flipped when the fix lands *)
-Definition code_fixed_F10 := false.
+Definition code_fixed_F10 := true.
 (* the variant of router.go (connection refused by registerConnection / launchHandleRoutine is
    closed or abandoned) the real-transport cases compare with; flipped when the fix lands *)
 Definition code_fixed_F11 := true.
